@@ -26,6 +26,10 @@ import (
 //	     child), TG Trigger callers released together; truesBad = rounds in which not exactly one Trigger returned true
 //	hc <G> <K> <rounds> => <calls> <distinct> <twice>
 //	     per round G goroutines call Hook K times each at the same time, then one Trigger
+//	lk <G> <K> <R> => L:<tgt>,<call>,<ret> ... T:<tgt>,<start>,<end>,<fired> ...
+//	     R LinkTo calls of one goroutine (targets A, B, nil) while G x K triggers of A and B run; logical clock stamps
+//	lm <M> <rounds> => <bad>
+//	     per round M simultaneous LinkTo(A|B) callers, then Trigger(A), Trigger(B): the linked event fires once in total
 //	hw <G> <K> <H> => <T> <unordered> <f1,s2,uf,us,c> ...
 //	     G x K Trigger calls, H goroutines hooking (and partly unhooking) meanwhile; per hook the logical-clock window
 
@@ -470,6 +474,196 @@ func (w *world) execHC(f []string) (string, string) {
 	return fmt.Sprintf("hc %d %d %d => %d %d %d", g, k, rounds, calls, distinct, twice), "accept"
 }
 
+// execLK: LinkTo concurrent with Trigger.  S is re-linked between the targets A (0), B (1) and nil (2) by one
+// goroutine while G goroutines trigger A and B; a logical clock stamps the call and the return of every
+// LinkTo and the start and the end of every Trigger; S's hook counts per trigger argument.
+//
+//	lk <G> <K> <R> => L:<tgt>,<call>,<ret> ... T:<tgt>,<start>,<end>,<fired> ...
+func (w *world) execLK(f []string) (string, string) {
+	in := cutArrow(f)
+	p, ok := atoiAll(in)
+	if !ok || len(p) != 3 || p[0] < 1 || p[0] > 16 || p[1] < 1 || p[1] > 400 || p[2] < 1 || p[2] > 400 || p[0]*p[1] > 1200 {
+		return "lk " + strings.Join(f, " "), "bad-op"
+	}
+	g, k, relinks := p[0], p[1], p[2]
+	src := event.New1[int]()
+	tg := []*event.Event1[int]{event.New1[int](), event.New1[int]()}
+	t := g * k
+	fired := make([]atomic.Int64, t)
+	src.Hook(func(arg int) { fired[arg].Add(1) })
+	var sink atomic.Int64
+	for _, e := range tg { // a few hooks around the link hook that take a little time, so that triggers overlap re-links
+		for i := 0; i < 3; i++ {
+			e.Hook(func(arg int) {
+				x := int64(arg)
+				for j := 0; j < 200; j++ {
+					x = x*31 + int64(j)
+				}
+				sink.Add(x & 1)
+			})
+		}
+	}
+	var clk atomic.Int64
+	type lrec struct{ tgt, call, ret int64 }
+	type trec struct{ tgt, start, end int64 }
+	links := make([]lrec, relinks)
+	trigs := make([]trec, t)
+	var wg sync.WaitGroup
+	var pn panics
+	defer pn.report(w, "lk")
+	var start atomic.Bool
+	var done atomic.Int64
+	for a := 0; a < g; a++ {
+		a := a
+		pn.goSafe(&wg, func() {
+			for !start.Load() {
+				runtime.Gosched()
+			}
+			for x := 0; x < k; x++ {
+				id := a*k + x
+				x2 := int64((a + x) % 2)
+				st := clk.Add(1)
+				tg[x2].Trigger(id)
+				trigs[id] = trec{x2, st, clk.Add(1)}
+				if x%3 == 0 {
+					runtime.Gosched()
+				}
+			}
+			done.Add(1)
+		})
+	}
+	pn.goSafe(&wg, func() {
+		for !start.Load() {
+			runtime.Gosched()
+		}
+		for i := 0; i < relinks; i++ {
+			tgt := int64((i*7 + i/3) % 3)
+			c := clk.Add(1)
+			if tgt == 2 {
+				src.LinkTo(nil)
+			} else {
+				src.LinkTo(tg[tgt])
+			}
+			links[i] = lrec{tgt, c, clk.Add(1)}
+			for y := 0; y < (i%4)*3; y++ {
+				runtime.Gosched()
+			}
+		}
+	})
+	start.Store(true)
+	if !waitTimeout(&wg) {
+		w.fail("hang", "LinkTo/Trigger stress goroutines did not finish", map[string]string{"oracle": "hang", "api": "event.LinkTo", "mode": "stress"})
+	}
+	out := make([]string, 0, relinks+t)
+	for _, l := range links {
+		out = append(out, fmt.Sprintf("L:%d,%d,%d", l.tgt, l.call, l.ret))
+	}
+	definite, overlapping := 0, 0
+	for id, tr := range trigs {
+		fc := fired[id].Load()
+		out = append(out, fmt.Sprintf("T:%d,%d,%d,%d", tr.tgt, tr.start, tr.end, fc))
+		// the property: j = the last LinkTo that had returned when the trigger began
+		j := -1
+		for i, l := range links {
+			if l.ret != 0 && l.ret < tr.start {
+				j = i
+			}
+		}
+		quiet := j+1 >= len(links) || links[j+1].call == 0 || links[j+1].call > tr.end
+		var lo, hi int64
+		if j >= 0 && links[j].tgt == tr.tgt {
+			hi = 1
+		}
+		if quiet {
+			lo = hi
+			definite++
+		} else {
+			overlapping++
+			for i := j + 1; i < len(links); i++ {
+				if links[i].call != 0 && links[i].call < tr.end && links[i].tgt == tr.tgt {
+					hi++
+				}
+			}
+		}
+		if fc < lo || fc > hi {
+			w.fail("link", fmt.Sprintf("trigger %d of target %d (clock %d..%d) fired the linked event %d times, allowed %d..%d (last LinkTo returned before it began: #%d)", id, tr.tgt, tr.start, tr.end, fc, lo, hi, j),
+				map[string]string{"oracle": "link-fired", "api": "event.Event1.LinkTo", "mode": "stress"})
+		}
+	}
+	for i := 0; i < definite; i += 50 {
+		w.count("lk:trigger-within-one-link-period(x50)")
+	}
+	for i := 0; i < overlapping; i += 50 {
+		w.count("lk:trigger-overlapping-a-relink(x50)")
+	}
+	w.res.nontrivial = true
+
+	return fmt.Sprintf("lk %d %d %d => %s", g, k, relinks, strings.Join(out, " ")), "accept"
+}
+
+// execLM: M goroutines call S.LinkTo(A or B) at the same time (the link mutex serialises them), afterwards A and B
+// are triggered once each: S is linked to exactly one of them, so it fires exactly once in total.
+//
+//	lm <M> <rounds> => <bad>      bad = rounds in which S did not fire exactly once
+func (w *world) execLM(f []string) (string, string) {
+	in := cutArrow(f)
+	p, ok := atoiAll(in)
+	if !ok || len(p) != 2 || p[0] < 1 || p[0] > 32 || p[1] < 1 || p[1] > 100000 {
+		return "lm " + strings.Join(f, " "), "bad-op"
+	}
+	m, rounds := p[0], p[1]
+	bad, first := 0, ""
+	for round := 0; round < rounds; round++ {
+		src := event.New1[int]()
+		a, b := event.New1[int](), event.New1[int]()
+		var fired atomic.Int64
+		src.Hook(func(int) { fired.Add(1) })
+		src.LinkTo(a)
+		var wg sync.WaitGroup
+		var pn panics
+		var start atomic.Bool
+		var ready atomic.Int32
+		for i := 0; i < m; i++ {
+			i := i
+			pn.goSafe(&wg, func() {
+				ready.Add(1)
+				for !start.Load() {
+				}
+				if (i+round)%2 == 0 {
+					src.LinkTo(b)
+				} else {
+					src.LinkTo(a)
+				}
+			})
+		}
+		for spins := 0; int(ready.Load()) < m && spins < 1<<22; spins++ {
+			runtime.Gosched()
+		}
+		start.Store(true)
+		if !waitTimeout(&wg) {
+			w.fail("hang", "concurrent LinkTo callers did not finish", map[string]string{"oracle": "hang", "api": "event.LinkTo", "mode": "stress"})
+
+			break
+		}
+		pn.report(w, "lm")
+		a.Trigger(1)
+		b.Trigger(2)
+		if n := fired.Load(); n != 1 {
+			bad++
+			if first == "" {
+				first = fmt.Sprintf("round %d: %d", round, n)
+			}
+		}
+	}
+	if bad != 0 {
+		w.fail("link", fmt.Sprintf("%d concurrent LinkTo(A|B) callers x %d rounds, then one Trigger of A and of B: in %d rounds the linked event did not fire exactly once (%s)", m, rounds, bad, first),
+			map[string]string{"oracle": "link-fired", "api": "event.Event1.LinkTo", "mode": "concurrent-linkto"})
+	}
+	w.res.nontrivial = true
+
+	return fmt.Sprintf("lm %d %d => %d", m, rounds, bad), "accept"
+}
+
 func genStress(rng *hx.Rng, scale int) [][]string {
 	var cases [][]string
 	for i := 0; i < 12*scale; i++ {
@@ -487,6 +681,12 @@ func genStress(rng *hx.Rng, scale int) [][]string {
 	}
 	for i := 0; i < 6*scale; i++ {
 		cases = append(cases, []string{fmt.Sprintf("hc %d %d %d", 2+rng.Intn(7), hx.Pick(rng, []int{1, 2, 5, 30}), hx.Pick(rng, []int{50, 200, 500}))})
+	}
+	for i := 0; i < 6*scale; i++ {
+		cases = append(cases, []string{fmt.Sprintf("lm %d %d", 2+rng.Intn(7), hx.Pick(rng, []int{100, 300, 600}))})
+	}
+	for i := 0; i < 8*scale; i++ {
+		cases = append(cases, []string{fmt.Sprintf("lk %d %d %d", 2+rng.Intn(4), hx.Pick(rng, []int{20, 60, 150}), hx.Pick(rng, []int{5, 20, 60}))})
 	}
 	for i := 0; i < 8*scale; i++ {
 		cases = append(cases, []string{fmt.Sprintf("hw %d %d %d", 2+rng.Intn(4), hx.Pick(rng, []int{20, 200, 1000}), 1+rng.Intn(5))})
